@@ -10,7 +10,7 @@ from tsa.check import Ctx, run_rules
 from tsa.rules import REGISTRY
 
 ROOT = os.environ.get("TUCAN_REPO", "/repo")
-mode = next((a for a in sys.argv[1:] if a in ("locals", "privates", "both", "invert-if", "temp-return", "const-extract", "reorder-defs")), "both")
+mode = next((a for a in sys.argv[1:] if a in ("locals", "privates", "both", "invert-if", "temp-return", "const-extract", "reorder-defs", "fstring-to-format", "split-tuple-assign")), "both")
 
 from tsa.renamer import renamed_overlay, rewritten_overlay
 
